@@ -545,3 +545,738 @@ def parse_fn_body(btoks):
     if p.i != len(btoks):
         raise Unparsed("trailing tokens after the function body")
     return b
+
+
+# ----------------------------------------------------------------------------------------------------
+# the functions, their Lean names and their fault-site tables
+# ----------------------------------------------------------------------------------------------------
+# (FnId, file, rust name, owner, return kind, site table).  The site table lists, in evaluation order, the
+# fault-carrying primitives of the function (after inlining the `Hole` methods) with the site number the
+# hand-written model uses for the same access.  Kinds: getU (get_unchecked), setU (*get_unchecked_mut = ),
+# unwrap, arith (checked `-`, incl. the one inside `parent`), swapC (Vec::swap), swapRemoveC (Vec::swap_remove).
+# Sites 29x / 39x do not occur in the hand model: the equivalence theorems show they never fire.
+FUNCS = [
+    ("storeSwap", STORE_RS, "swap", "store",
+     [("getU", 101), ("getU", 102), ("swapC", 103), ("swapC", 104)]),
+    ("storePrioAt", STORE_RS, "get_priority_from_position", "store",
+     [("getU", 105), ("unwrap", 106)]),
+    ("pqHeapify", PQ_RS, "heapify", "pq", []),
+    ("pqBubbleUp", PQ_RS, "bubble_up", "pq",
+     [("unwrap", 204), ("arith", 291), ("getU", 105), ("unwrap", 106), ("setU", 202), ("setU", 203),
+      ("setU", 205), ("setU", 206)]),
+    ("pqUpHeapify", PQ_RS, "up_heapify", "pq", [("getU", 207)]),
+    ("pqHeapBuild", PQ_RS, "heap_build", "pq", [("arith", 208)]),
+]
+# every constructor of `Src.FnId`, in the order of PQ/Model/Src.lean (functions not (yet) translated are `none`)
+ALL_FNIDS = ["storeSwap", "storePrioAt", "storeSwapRemove", "storeRemove",
+             "pqHeapify", "pqBubbleUp", "pqUpHeapify", "pqHeapBuild",
+             "dqHeapify", "dqHeapifyMin", "dqHeapifyMax", "dqBubbleUp", "dqBubbleUpMin", "dqBubbleUpMax",
+             "dqUpHeapify", "dqHeapBuild", "dqFindMax"]
+HOLE_METHODS = ["new", "index_at", "move_from", "drop"]
+# methods of the queue (`self.m(..)`) / of the store (`self.store.m(..)`) that are calls of translated functions
+QUEUE_CALLS = {"pq": {"heapify": "pqHeapify", "bubble_up": "pqBubbleUp", "up_heapify": "pqUpHeapify",
+                      "heap_build": "pqHeapBuild"},
+               "dq": {"heapify": "dqHeapify", "heapify_min": "dqHeapifyMin", "heapify_max": "dqHeapifyMax",
+                      "bubble_up": "dqBubbleUp", "up_heapify": "dqUpHeapify", "heap_build": "dqHeapBuild",
+                      "find_max": "dqFindMax"}}
+STORE_CALLS = {"swap": "storeSwap", "swap_remove": "storeSwapRemove", "remove": "storeRemove"}
+# return kinds of the callable functions: N = usize/Position/Index, U = (), P = &P
+RET_KIND = {"storeSwap": "U", "storePrioAt": "P", "pqHeapify": "U", "pqBubbleUp": "N", "pqUpHeapify": "U",
+            "pqHeapBuild": "U", "dqHeapify": "U", "dqHeapifyMin": "U", "dqHeapifyMax": "U", "dqBubbleUp": "N",
+            "dqUpHeapify": "U", "dqHeapBuild": "U"}
+
+
+# ----------------------------------------------------------------------------------------------------
+# lowering: AST -> IR (Python tuples), then printing as Lean terms
+# ----------------------------------------------------------------------------------------------------
+
+def strip(e):
+    """erase parentheses, `&`, `&mut`, `*` and `unsafe { e }` / `{ e }` around an expression"""
+    while True:
+        if e[0] in ("paren", "ref", "deref"):
+            e = e[1]
+        elif e[0] == "unsafe" and not e[1][1] and e[1][2] is not None:
+            e = e[1][2]
+        elif e[0] == "block" and not e[1] and e[2] is not None:
+            e = e[2]
+        else:
+            return e
+
+
+class Lower:
+    def __init__(self, fnid, owner, sites, sources):
+        self.fnid, self.owner = fnid, owner
+        self.sites, self.site_i = sites, 0
+        self.sources = sources                  # file -> token list
+        self.vars = []                          # id -> (name, kind)
+        self.scopes = [{}]
+        self.loops = []                         # (name, cond, body)
+        self.live_holes = []                    # by-value holes of the function's top scope
+
+    # ---- bookkeeping
+    def site(self, kind):
+        if self.site_i >= len(self.sites):
+            raise Unparsed("more fault-carrying accesses than the site table of %s lists (next: %s)" % (self.fnid, kind))
+        k, s = self.sites[self.site_i]
+        if k != kind:
+            raise Unparsed("access #%d of %s is `%s`, the site table expects `%s`" % (self.site_i + 1, self.fnid, kind, k))
+        self.site_i += 1
+        return s
+
+    def fresh(self, name, kind):
+        self.vars.append((name, kind))
+        return len(self.vars) - 1
+
+    def bind(self, name, b):
+        self.scopes[-1][name] = b
+
+    def lookup(self, name):
+        for sc in reversed(self.scopes):
+            if name in sc:
+                return sc[name]
+        return None
+
+    # ---- places (`self.store.heap`, aliases of it, fields of a hole)
+    def place(self, e):
+        e = strip(e)
+        if e[0] == "path" and len(e[1]) == 1:
+            b = self.lookup(e[1][0])
+            if b and b[0] == "place":
+                return b[1]
+            return None
+        if e[0] == "field":
+            base = strip(e[1])
+            if base[0] == "path" and len(base[1]) == 1:
+                b = self.lookup(base[1][0])
+                if b and b[0] == "hole":
+                    f = b[1].get(e[2])
+                    return f[1] if f and f[0] == "place" else None
+            p = self.place(base)
+            if p == "QUEUE" and e[2] == "store":
+                return "STORE"
+            if p == "STORE" and e[2] in ("heap", "qp", "map"):
+                return e[2].upper()
+        return None
+
+    def hole_of(self, e):
+        e = strip(e)
+        if e[0] == "path" and len(e[1]) == 1:
+            b = self.lookup(e[1][0])
+            if b and b[0] == "hole":
+                return b
+        return None
+
+    # ---- kinds
+    def is_mapprio(self, e):
+        """`MAP.get_index(a).unwrap().1` -> a"""
+        if e[0] == "field" and e[2] == "1":
+            u = strip(e[1])
+            if u[0] == "mcall" and u[2] == "unwrap" and not u[3]:
+                g = strip(u[1])
+                if g[0] == "mcall" and g[2] == "get_index" and len(g[3]) == 1 and self.place(g[1]) == "MAP":
+                    return g[3][0]
+        return None
+
+    def kind(self, e):
+        e = strip(e)
+        if e[0] == "path" and len(e[1]) == 1:
+            b = self.lookup(e[1][0])
+            if b and b[0] in ("N", "P"):
+                return b[0]
+            return None
+        if self.is_mapprio(e) is not None:
+            return "P"
+        if e[0] == "mcall" and e[2] == "get_priority_from_position":
+            return "P"
+        return "N"
+
+    # ---- usize expressions
+    def n(self, e):
+        e = strip(e)
+        t = e[0]
+        if t == "num":
+            return ("lit", e[1])
+        if t == "path":
+            if len(e[1]) == 1:
+                b = self.lookup(e[1][0])
+                if b and b[0] == "N":
+                    return ("var", b[1])
+            raise Unparsed("`%s` is not a usize variable in scope" % "::".join(e[1]))
+        if t == "field":
+            h = self.hole_of(e[1])
+            if h is not None:
+                f = h[1].get(e[2])
+                if f and f[0] == "N":
+                    return ("var", f[1])
+                raise Unparsed("hole field `%s`" % e[2])
+            if e[2] == "0":
+                return self.n(e[1])                                   # newtype erasure
+            if e[2] == "size" and self.place(e[1]) == "STORE":
+                return ("len",)
+            raise Unparsed("field `.%s`" % e[2])
+        if t == "call":
+            f = e[1]
+            if f[0] != "path":
+                raise Unparsed("call of a non-path")
+            name = "::".join(f[1])
+            if self.lookup(name) is not None:
+                raise Unparsed("call of the local `%s`" % name)
+            if name in ("Position", "Index") and len(e[2]) == 1:
+                return self.n(e[2][0])
+            if name in ("left", "right", "level") and len(e[2]) == 1:
+                return (name, self.n(e[2][0]))
+            if name == "parent" and len(e[2]) == 1:
+                a = self.n(e[2][0])
+                return ("parent", self.site("arith"), a)
+            raise Unparsed("call of `%s`" % name)
+        if t == "bin" and e[1] in ("+", "*", "/", "%", "-"):
+            a = self.n(e[2]); b = self.n(e[3])
+            if e[1] == "-":
+                return ("sub", self.site("arith"), a, b)
+            if e[1] in ("/", "%") and not (b[0] == "lit" and b[1] > 0):
+                raise Unparsed("`/` or `%` by something that is not a positive literal")
+            return ({"+": "add", "*": "mul", "/": "div", "%": "mod"}[e[1]], a, b)
+        if t == "mcall":
+            recv, name, args = e[1], e[2], e[3]
+            p = self.place(recv)
+            if name == "len" and not args and p in ("QUEUE", "STORE"):
+                return ("len",)
+            if name == "get_unchecked" and len(args) == 1 and p in ("HEAP", "QP"):
+                a = self.n(args[0])
+                return ("heapGetU" if p == "HEAP" else "qpGetU", self.site("getU"), a)
+            h = self.hole_of(recv)
+            if h is not None and name == "index_at":
+                return self.inline_hole_method(h, name, args, "N")
+            raise Unparsed("method `.%s(..)` in a usize expression" % name)
+        raise Unparsed("usize expression of form `%s`" % t)
+
+    def pure_n(self, x):
+        """an IR usize expression that cannot fault"""
+        return x[0] in ("lit", "var", "len") or (x[0] in ("left", "right", "level") and self.pure_n(x[1])) \
+            or (x[0] in ("add", "mul", "div", "mod") and self.pure_n(x[1]) and self.pure_n(x[2]))
+
+    # ---- priority expressions
+    def p(self, e):
+        e = strip(e)
+        if e[0] == "path" and len(e[1]) == 1:
+            b = self.lookup(e[1][0])
+            if b and b[0] == "P":
+                return ("pvar", b[1])
+            raise Unparsed("`%s` is not a priority variable in scope" % e[1][0])
+        a = self.is_mapprio(e)
+        if a is not None:
+            x = self.n(a)
+            return ("mapPrio", self.site("unwrap"), x)
+        if e[0] == "mcall" and e[2] == "get_priority_from_position" and len(e[3]) == 1 and self.place(e[1]) == "STORE":
+            return ("pcall", "storePrioAt", [self.n(e[3][0])])
+        raise Unparsed("priority expression of form `%s`" % e[0])
+
+    # ---- boolean expressions
+    def b(self, e):
+        e = strip(e)
+        if e[0] == "path" and e[1] in (["true"], ["false"]):
+            return ("tt",) if e[1] == ["true"] else ("ff",)
+        if e[0] == "bin" and e[1] == "&&":
+            x = self.b(e[2]); y = self.b(e[3])
+            return ("and", x, y)
+        if e[0] == "bin" and e[1] in ("<", ">", "<=", ">=", "==", "!="):
+            ka, kb = self.kind(e[2]), self.kind(e[3])
+            if ka == "P" and kb == "P":
+                if e[1] not in ("<", ">"):
+                    raise Unparsed("`%s` between priorities" % e[1])
+                x = self.p(e[2]); y = self.p(e[3])
+                return ("ltP" if e[1] == "<" else "gtP", x, y)
+            if ka == "N" and kb == "N":
+                x = self.n(e[2]); y = self.n(e[3])
+                return ({"<": "ltN", ">": "gtN", "<=": "leN", ">=": "geN", "==": "eqN", "!=": "neN"}[e[1]], x, y)
+            raise Unparsed("comparison between a priority and a non-priority")
+        if e[0] == "mcall" and e[2] == "is_empty" and not e[3] and self.place(e[1]) in ("QUEUE", "STORE"):
+            return ("eqN", ("len",), ("lit", 0))
+        raise Unparsed("boolean expression of form `%s`" % (e[1] if e[0] == "bin" else e[0]))
+
+    # ---- Hole
+    def hole_fn(self, name):
+        fs = find_fns(self.sources[STORE_RS], name)
+        if len(fs) != 1:
+            raise Unparsed("expected exactly one `fn %s` in store.rs (Hole), found %d" % (name, len(fs)))
+        return fs[0][0], parse_fn_body(fs[0][2])
+
+    def simple_arg(self, a):
+        """the binding an argument of an inlined method denotes: a place, a hole field or a plain variable"""
+        pl = self.place(a)
+        if pl is not None:
+            return ("place", pl)
+        k = self.kind(a)
+        if k == "P":
+            x = self.p(a)
+            if x[0] == "pvar":
+                return ("P", x[1])
+        elif k == "N":
+            x = self.n(a)
+            if x[0] == "var":
+                return ("N", x[1])
+        raise Unparsed("argument of an inlined `Hole` method is not a plain variable")
+
+    def new_hole(self, args):
+        params, body = self.hole_fn("new")
+        if len(params) != len(args) or body[1] or body[2] is None or body[2][0] != "struct" or body[2][1] != ["Hole"]:
+            raise Unparsed("`Hole::new` is not a plain constructor")
+        argb = {}
+        for (pn, _), a in zip(params, args):
+            argb[pn] = self.simple_arg(a)
+        fields, code = {}, []
+        for fname, fe in body[2][2]:
+            fe = strip(fe)
+            if fe[0] != "path" or len(fe[1]) != 1 or fe[1][0] not in argb:
+                raise Unparsed("`Hole::new`: field `%s` is not initialised from a parameter" % fname)
+            b = argb[fe[1][0]]
+            if b[0] == "place":
+                fields[fname] = b
+            elif b[0] == "N":
+                v = self.fresh("hole." + fname, "N")
+                code.append(("setN", v, ("var", b[1])))
+                fields[fname] = ("N", v)
+            else:
+                raise Unparsed("`Hole::new`: priority-valued field")
+        return ("hole", fields), code
+
+    def inline_hole_method(self, hole, name, args, want):
+        params, body = self.hole_fn(name)
+        if not params or params[0][0] != "self" or len(params) - 1 != len(args):
+            raise Unparsed("`Hole::%s`: unexpected parameter list" % name)
+        sc = {"self": hole}
+        for (pn, _), a in zip(params[1:], args):
+            sc[pn] = self.simple_arg(a)
+        saved = self.scopes
+        self.scopes = [sc]
+        try:
+            if want == "N":
+                if body[1] or body[2] is None:
+                    raise Unparsed("`Hole::%s` is not a single expression" % name)
+                return self.n(body[2])
+            return self.block_stmts(body, None)
+        finally:
+            self.scopes = saved
+
+    # ---- statements
+    def block_stmts(self, blk, tail_ret):
+        """lower a block; `tail_ret` says what to do with its tail expression: None = it is a statement of type (),
+        'N' / 'P' = it is the value the function returns"""
+        assert blk[0] == "block"
+        self.scopes.append({})
+        try:
+            out = []
+            for s in blk[1]:
+                out += self.stmt(s)
+            if blk[2] is not None:
+                out += self.tail(blk[2], tail_ret)
+            elif tail_ret in ("N", "P"):
+                if not (blk[1] and blk[1][-1][0] == "return"):
+                    raise Unparsed("a value is expected at the end of the block")
+            return out
+        finally:
+            self.scopes.pop()
+
+    def tail(self, e, tail_ret):
+        e0 = strip(e) if e[0] in ("paren", "unsafe") else e
+        if e0[0] in ("if", "match", "block", "unsafe"):
+            return self.stmt(("expr", e0), tail_ret)
+        if tail_ret is None:
+            return self.stmt(("expr", e))
+        pre, post = [], []
+        if tail_ret == "N":
+            x = self.n(e)
+            if self.live_holes:
+                v = self.fresh("ret", "N")
+                pre = [("setN", v, x)]
+                for h in self.live_holes:
+                    pre += self.inline_hole_method(h, "drop", [], "stmt")
+                x = ("var", v)
+            return pre + [("retN", x)]
+        if tail_ret == "P":
+            if self.live_holes:
+                raise Unparsed("priority result with a live hole")
+            return [("retP", self.p(e))]
+        raise Unparsed("tail expression")
+
+    def branch(self, blk_or_if, tail_ret):
+        if blk_or_if is None:
+            return []
+        if blk_or_if[0] == "block":
+            return self.block_stmts(blk_or_if, tail_ret)
+        return self.stmt(("expr", blk_or_if), tail_ret)
+
+    def set_var(self, name, e, declare):
+        """`let name = e;` (declare) or `name = e;`"""
+        es = strip(e)
+        # aliases of places
+        if declare and self.place(e) is not None:
+            self.bind(name, ("place", self.place(e)))
+            return []
+        # Hole::new
+        if declare and es[0] == "call" and es[1] == ("path", ["Hole", "new"]):
+            h, code = self.new_hole(es[2])
+            self.bind(name, h)
+            if len(self.scopes) != 2:
+                raise Unparsed("a hole that is not declared at the top level of the function")
+            self.live_holes.append(h)
+            return code
+        # calls of translated functions that return a position
+        if es[0] == "mcall" and self.place(es[1]) == "QUEUE" and es[2] in QUEUE_CALLS.get(self.owner, {}) \
+                and RET_KIND.get(QUEUE_CALLS[self.owner][es[2]]) == "N":
+            args = [self.n(a) for a in es[3]]
+            v = self.target(name, "N", declare)
+            return [("callN", v, QUEUE_CALLS[self.owner][es[2]], args, [])]
+        k = self.kind(e)
+        if k == "P":
+            x = self.p(e)
+            return [("setP", self.target(name, "P", declare), x)]
+        x = self.n(e)
+        return [("setN", self.target(name, "N", declare), x)]
+
+    def target(self, name, kind, declare):
+        if declare:
+            v = self.fresh(name, kind)
+            self.bind(name, (kind, v))
+            return v
+        b = self.lookup(name)
+        if not b or b[0] != kind:
+            raise Unparsed("assignment to `%s`, which is not a %s variable in scope" % (name, kind))
+        return b[1]
+
+    def stmt(self, s, tail_ret=None):
+        t = s[0]
+        if t == "let":
+            pat, e = s[1], s[2]
+            if pat[0] == "pid":
+                return self.set_var(pat[1], e, True)
+            if pat[0] == "ptuple":
+                es = strip(e)
+                if es[0] != "tuple" or len(es[1]) != len(pat[1]) or any(q[0] != "pid" for q in pat[1]):
+                    raise Unparsed("tuple pattern")
+                # all components are evaluated (in the old scope) before any name is bound; the registers are fresh
+                vals = [(q[1], self.kind(x), x) for q, x in zip(pat[1], es[1])]
+                code, binds = [], []
+                for name, k, x in vals:
+                    if k == "P":
+                        v = self.fresh(name, "P"); code.append(("setP", v, self.p(x)))
+                    else:
+                        v = self.fresh(name, "N"); code.append(("setN", v, self.n(x)))
+                    binds.append((name, (k or "N", v)))
+                for name, b in binds:
+                    self.bind(name, b)
+                return code
+            if pat[0] == "pstruct" and pat[1] == ["Store"] and self.place(e) == "STORE":
+                for f in pat[2]:
+                    if f not in ("map", "heap", "qp"):
+                        raise Unparsed("Store field `%s` in a pattern" % f)
+                    self.bind(f, ("place", f.upper()))
+                return []
+            raise Unparsed("let pattern `%s`" % pat[0])
+        if t == "assign":
+            lhs, op, rhs = s[1], s[2], s[3]
+            l0 = strip(lhs)
+            if op == "-=":
+                r = strip(rhs)
+                if l0[0] == "field" and l0[2] == "size" and self.place(l0[1]) == "STORE" and r == ("num", 1):
+                    return [("sizeDec", self.site("arith"))]
+                raise Unparsed("`-=`")
+            if op != "=":
+                raise Unparsed("`%s`" % op)
+            if lhs[0] == "deref":
+                m = strip(lhs[1])
+                if m[0] == "mcall" and m[2] == "get_unchecked_mut" and len(m[3]) == 1 and self.place(m[1]) in ("HEAP", "QP"):
+                    # Rust evaluates the right operand of `=` before the place: only fault-free right operands are accepted
+                    x = self.n(rhs)
+                    if not self.pure_n(x):
+                        raise Unparsed("right operand of `*place = e` can fault")
+                    i = self.n(m[3][0])
+                    return [("heapSetU" if self.place(m[1]) == "HEAP" else "qpSetU", self.site("setU"), i, x)]
+                raise Unparsed("assignment through `*`")
+            if l0[0] == "path" and len(l0[1]) == 1:
+                return self.set_var(l0[1][0], rhs, False)
+            if l0[0] == "field":
+                h = self.hole_of(l0[1])
+                if h is not None and h[1].get(l0[2], ("",))[0] == "N":
+                    return [("setN", h[1][l0[2]][1], self.n(rhs))]
+            raise Unparsed("assignment target")
+        if t == "return":
+            if self.live_holes:
+                raise Unparsed("`return` while a hole is live")
+            if s[1] is None:
+                return [("ret",)]
+            raise Unparsed("`return e`")
+        if t == "break":
+            return [("brk",)]
+        if t == "while":
+            c = self.b(s[1])
+            body = self.block_stmts(s[2], None)
+            name = "%s_loop%d" % (self.fnid, len(self.loops) + 1)
+            self.loops.append((name, c, body))
+            return [("whileRef", name)]
+        if t == "for":
+            pat, it, blk = s[1], strip(s[2]), s[3]
+            if pat[0] != "pid" or it[0] != "mcall" or it[2] != "rev" or it[3]:
+                raise Unparsed("`for` loop that is not `for i in (0..=e).rev()`")
+            r = strip(it[1])
+            if r[0] != "range" or r[1] != "..=" or strip(r[2]) != ("num", 0):
+                raise Unparsed("`for` loop that is not `for i in (0..=e).rev()`")
+            hi = self.n(r[3])
+            self.scopes.append({})
+            try:
+                v = self.fresh(pat[1], "N")
+                self.bind(pat[1], ("N", v))
+                body = self.block_stmts(blk, None)
+            finally:
+                self.scopes.pop()
+            return [("forRev", v, hi, body)]
+        if t == "expr":
+            e = s[1]
+            if e[0] == "unsafe":
+                return self.block_stmts(e[1], tail_ret)
+            if e[0] == "block":
+                return self.block_stmts(e, tail_ret)
+            if e[0] == "if":
+                c = self.b(e[1])
+                th = self.branch(e[2], tail_ret)
+                el = self.branch(e[3], tail_ret)
+                if e[3] is None and tail_ret in ("N", "P"):
+                    raise Unparsed("`if` without `else` as a value")
+                return [("ite", c, th, el)]
+            e0 = strip(e)
+            if e0[0] == "tuple" and not e0[1]:
+                return []
+            if e0[0] == "mcall":
+                recv, name, args = e0[1], e0[2], e0[3]
+                p = self.place(recv)
+                if p == "STORE" and name == "swap":
+                    return [("call", "storeSwap", [self.n(a) for a in args], [])]
+                if p == "QUEUE" and name in QUEUE_CALLS.get(self.owner, {}) and \
+                        RET_KIND.get(QUEUE_CALLS[self.owner][name]) == "U":
+                    return [("call", QUEUE_CALLS[self.owner][name], [self.n(a) for a in args], [])]
+                if p in ("HEAP", "QP") and name == "swap" and len(args) == 2:
+                    a = self.n(args[0]); b = self.n(args[1])
+                    return [("heapSwap" if p == "HEAP" else "qpSwap", self.site("swapC"), a, b)]
+                h = self.hole_of(recv)
+                if h is not None and name == "move_from":
+                    return self.inline_hole_method(h, name, args, "stmt")
+                raise Unparsed("method call `.%s(..)` as a statement" % name)
+            raise Unparsed("expression statement of form `%s`" % e0[0])
+        raise Unparsed("statement `%s`" % t)
+
+
+def ret_kind(rtoks):
+    txt = " ".join(v for k, v in rtoks if k != "life")
+    txt = txt.split("where")[0].strip()
+    if txt == "":
+        return None
+    if txt in ("-> Position", "-> Index", "-> usize"):
+        return "N"
+    if txt == "-> & P":
+        return "P"
+    raise Unparsed("return type `%s`" % txt)
+
+
+def param_binding(lw, name, ty):
+    if name == "self":
+        return ("place", {"store": "STORE", "pq": "QUEUE", "dq": "QUEUE"}[lw.owner]), None
+    if ty in ("Position", "Index", "usize"):
+        v = lw.fresh(name, "N")
+        return ("N", v), ("n", v)
+    if ty == "& P":
+        v = lw.fresh(name, "P")
+        return ("P", v), ("p", v)
+    raise Unparsed("parameter `%s: %s`" % (name, ty))
+
+
+def lower_function(fnid, file, rust, owner, sites, sources):
+    fs = find_fns(sources[file], rust)
+    if len(fs) != 1:
+        raise Unparsed("expected exactly one `fn %s` in %s, found %d" % (rust, file, len(fs)))
+    params, rtoks, btoks = fs[0]
+    lw = Lower(fnid, owner, sites, sources)
+    nparams, pparams = [], []
+    for name, ty in params:
+        b, reg = param_binding(lw, name, ty)
+        lw.scopes[0][name] = b
+        if reg:
+            (nparams if reg[0] == "n" else pparams).append(reg[1])
+    rk = ret_kind(rtoks)
+    body = lw.block_stmts(parse_fn_body(btoks), rk)
+    if lw.site_i != len(sites):
+        raise Unparsed("fewer fault-carrying accesses (%d) than the site table of %s lists (%d)" % (lw.site_i, fnid, len(sites)))
+    return {"nparams": nparams, "pparams": pparams, "body": body, "loops": lw.loops, "vars": lw.vars}
+
+
+# ----------------------------------------------------------------------------------------------------
+# printing
+# ----------------------------------------------------------------------------------------------------
+
+def pn(x):
+    t = x[0]
+    if t == "lit": return "(.lit %d)" % x[1]
+    if t == "var": return "(.var %d)" % x[1]
+    if t == "len": return ".len"
+    if t in ("add", "mul", "div", "mod"): return "(.%s %s %s)" % (t, pn(x[1]), pn(x[2]))
+    if t == "sub": return "(.sub %d %s %s)" % (x[1], pn(x[2]), pn(x[3]))
+    if t in ("left", "right", "level"): return "(.%s %s)" % (t, pn(x[1]))
+    if t in ("parent", "heapGetU", "qpGetU"): return "(.%s %d %s)" % (t, x[1], pn(x[2]))
+    raise AssertionError(t)
+
+
+def pns(xs):
+    return "[" + ", ".join(pn(x) for x in xs) + "]"
+
+
+def pp(x):
+    t = x[0]
+    if t == "pvar": return "(.var %d)" % x[1]
+    if t == "mapPrio": return "(.mapPrio %d %s)" % (x[1], pn(x[2]))
+    if t == "pcall": return "(.call .%s %s)" % (x[1], pns(x[2]))
+    raise AssertionError(t)
+
+
+def pps(xs):
+    return "[" + ", ".join(pp(x) for x in xs) + "]"
+
+
+def pb(x):
+    t = x[0]
+    if t in ("tt", "ff"): return "." + t
+    if t in ("ltN", "leN", "gtN", "geN", "eqN", "neN"): return "(.%s %s %s)" % (t, pn(x[1]), pn(x[2]))
+    if t in ("ltP", "gtP"): return "(.%s %s %s)" % (t, pp(x[1]), pp(x[2]))
+    if t == "and": return "(.and %s %s)" % (pb(x[1]), pb(x[2]))
+    raise AssertionError(t)
+
+
+def pstmts(ss, ind):
+    """a statement list as a right-nested `.seq`"""
+    pad = " " * ind
+    if not ss:
+        return pad + ".skip"
+    if len(ss) == 1:
+        return pstmt(ss[0], ind)
+    return pad + "(.seq\n" + pstmt(ss[0], ind + 2) + "\n" + pstmts(ss[1:], ind + 2) + ")"
+
+
+def pstmt(s, ind):
+    pad = " " * ind
+    t = s[0]
+    if t == "setN": return pad + "(.setN %d %s)" % (s[1], pn(s[2]))
+    if t == "setP": return pad + "(.setP %d %s)" % (s[1], pp(s[2]))
+    if t == "callN": return pad + "(.callN %d .%s %s %s)" % (s[1], s[2], pns(s[3]), pps(s[4]))
+    if t == "call": return pad + "(.call .%s %s %s)" % (s[1], pns(s[2]), pps(s[3]))
+    if t == "ite":
+        return pad + "(.ite %s\n%s\n%s)" % (pb(s[1]), pstmts(s[2], ind + 2), pstmts(s[3], ind + 2))
+    if t == "whileRef": return pad + "(.while %s_cond %s_body)" % (s[1], s[1])
+    if t == "partRef": return pad + s[1]
+    if t == "forRev": return pad + "(.forRev %d %s\n%s)" % (s[1], pn(s[2]), pstmts(s[3], ind + 2))
+    if t in ("brk", "ret"): return pad + "." + t
+    if t == "retN": return pad + "(.retN %s)" % pn(s[1])
+    if t == "retP": return pad + "(.retP %s)" % pp(s[1])
+    if t in ("heapSetU", "qpSetU", "heapSwap", "qpSwap"):
+        return pad + "(.%s %d %s %s)" % (t, s[1], pn(s[2]), pn(s[3]))
+    if t == "sizeDec": return pad + "(.sizeDec %d)" % s[1]
+    raise AssertionError(t)
+
+
+def emit(results, unparsed):
+    L = ["import PQ.Model.Src",
+         "/-! GENERATED by /verif/tools/gen_src.py from /repo/src/store.rs, /repo/src/priority_queue/mod.rs and",
+         "    /repo/src/double_priority_queue/mod.rs — do not edit.  One `Option Fn` per translated Rust function (`none`: the",
+         "    function left the supported subset, see the translator's report); `prog` is the table the interpreter",
+         "    `PQ.Src.run` looks callees up in.  The loops are separate definitions so that lemmas can name them. -/",
+         "namespace PQ.SrcGen",
+         "open PQ.Src",
+         ""]
+    for fnid in ALL_FNIDS:
+        if fnid in results:
+            r = results[fnid]
+            names = ", ".join("%d=%s%s" % (i, nm, "" if k == "N" else ":P") for i, (nm, k) in enumerate(r["vars"]))
+            L.append("/-! `%s`: registers %s -/" % (fnid, names or "(none)"))
+            for name, c, body in r["loops"]:
+                L.append("def %s_cond : BExpr :=\n  %s" % (name, pb(c)))
+                L.append("")
+                L.append("def %s_body : Stmt :=\n%s" % (name, pstmts(body, 2)))
+                L.append("")
+            # the top level of the body is cut at its loops: `<fn>_part<k>` are the loop-free stretches
+            segs, cur = [], []
+            for st in r["body"]:
+                if st[0] == "whileRef":
+                    if cur: segs.append(("part", cur)); cur = []
+                    segs.append(("loop", st))
+                else:
+                    cur.append(st)
+            if cur: segs.append(("part", cur))
+            if any(k == "loop" for k, _ in segs):
+                top, np_ = [], 0
+                for k, x in segs:
+                    if k == "part":
+                        np_ += 1
+                        L.append("def %s_part%d : Stmt :=\n%s" % (fnid, np_, pstmts(x, 2)))
+                        L.append("")
+                        top.append(("partRef", "%s_part%d" % (fnid, np_)))
+                    else:
+                        top.append(x)
+                L.append("def %s_body : Stmt :=\n%s" % (fnid, pstmts(top, 2)))
+            else:
+                L.append("def %s_body : Stmt :=\n%s" % (fnid, pstmts(r["body"], 2)))
+            L.append("")
+            L.append("def %s : Option Fn :=\n  some { nparams := %s, pparams := %s, body := %s_body }"
+                     % (fnid, json.dumps(r["nparams"]), json.dumps(r["pparams"]), fnid))
+        else:
+            why = unparsed.get(fnid, "not translated (later phase)")
+            L.append("/-- `%s`: %s -/" % (fnid, why.replace("-/", "- /")))
+            L.append("def %s : Option Fn := none" % fnid)
+        L.append("")
+    L.append("def prog : Prog")
+    for fnid in ALL_FNIDS:
+        L.append("  | .%s => %s" % (fnid, fnid))
+    L.append("")
+    L.append("end PQ.SrcGen")
+    return "\n".join(L) + "\n"
+
+
+def main():
+    out = DEFAULT_OUT
+    argv = sys.argv[1:]
+    while argv:
+        a = argv.pop(0)
+        if a == "--out" and argv:
+            out = argv.pop(0)
+        else:
+            sys.stderr.write("usage: gen_src.py [--out FILE]\n")
+            sys.exit(2)
+    report = {"translated": [], "unparsed": [], "changed": False, "out": out}
+    sources, src_err = {}, {}
+    for f in (STORE_RS, PQ_RS, DQ_RS):
+        try:
+            sources[f] = tokenize(strip_comments(open(os.path.join(REPO, f)).read()))
+        except (OSError, Unparsed) as ex:
+            src_err[f] = str(ex)
+            sources[f] = []
+    results, unparsed = {}, {}
+    for fnid, file, rust, owner, sites in FUNCS:
+        try:
+            if file in src_err:
+                raise Unparsed("cannot read/tokenize %s: %s" % (file, src_err[file]))
+            results[fnid] = lower_function(fnid, file, rust, owner, sites, sources)
+            report["translated"].append(fnid)
+        except Unparsed as ex:
+            unparsed[fnid] = str(ex)
+            report["unparsed"].append({"fn": fnid, "rust": "%s::%s" % (file, rust), "why": str(ex)})
+        except Exception as ex:                     # a bug of the translator must not look like a translation
+            unparsed[fnid] = "internal error: %r" % (ex,)
+            report["unparsed"].append({"fn": fnid, "rust": "%s::%s" % (file, rust), "why": "internal error: %r" % (ex,)})
+    new = emit(results, unparsed)
+    old = open(out).read() if os.path.exists(out) else None
+    report["changed"] = (old != new)
+    if old != new:
+        os.makedirs(os.path.dirname(out), exist_ok=True)
+        open(out, "w").write(new)
+    json.dump(report, sys.stdout, indent=1)
+    print()
+
+
+if __name__ == "__main__":
+    main()
